@@ -1,5 +1,5 @@
 (* Props/C01.v — property C01: statements only. Each is closed by a lemma of Proofs/CmFacts.v. *)
-From SA Require Import Model.Scores Proofs.CmFacts.
+From SA Require Import Model.Scores Model.Bsearch Proofs.CmFacts Proofs.BsearchFacts.
 Open Scope Z_scope.
 
 (* Every cell of Scores.cm(t) is the number of samples the documented decision rule places in it,
@@ -32,6 +32,26 @@ Theorem C01_pointwise_sum : forall sc ec (labels : list bool) (xs : list Q) (t :
   pointwise_sum sc ec labels xs t = cm (from_labels labels xs 0 0 sc ec false) t.
 Proof. exact pointwise_sum_eq_cm. Qed.
 Print Assumptions C01_pointwise_sum.
+
+(* A textbook lower/upper-bound binary search (Model/Bsearch.v) returns, on a
+   sorted array, exactly the count that the model above uses for np.searchsorted; hence Scores.cm
+   computed through the binary search equals counting whenever the constructor's sortedness invariant
+   holds (wf). *)
+Theorem C01_binary_search_is_count : forall (sd : side) (l : list Q) (t : ext),
+  sorted l -> searchsorted_bin sd l t = searchsorted sd l t.
+Proof. exact searchsorted_bin_count. Qed.
+Print Assumptions C01_binary_search_is_count.
+
+Theorem C01_cm_through_binary_search : forall (s : scores) (t : ext), wf s -> cm_bin s t = cm s t.
+Proof. exact cm_bin_cm. Qed.
+Print Assumptions C01_cm_through_binary_search.
+
+(* the sortedness hypothesis is not decoration: a binary search on unsorted data (is_sorted=True
+   passed wrongly) does not count (documented caller obligation, not a defect) *)
+Example C01_needs_sorted_example :
+  cm_bin (mk_scores [3#1; 1#1; 2#1] [0#1] 0 0 Pos Pos true) (Fin (2#1)) = mkCmz 1 2 0 1 /\
+  cm (mk_scores [3#1; 1#1; 2#1] [0#1] 0 0 Pos Pos true) (Fin (2#1)) = mkCmz 2 1 0 1.
+Proof. split; reflexivity. Qed.
 
 (* non-vacuity: a concrete object with ties across classes and an easy sample *)
 Example C01_example :
